@@ -112,13 +112,13 @@ def gen_cases(ctx):
     if not ctx.thorough:
         hists = rng.sample(hists, 256)
     else:
-        hists = rng.sample(hists, 1500)
+        hists = rng.sample(hists, 700)
     for h in hists:
         rates = [abs(1 - f) for f in h]
         for mc in range(1, L + 1):
             fe_list = fes(rates)
-            for fe in (fe_list if ctx.thorough else [None] + rng.sample(fe_list[1:], 2)):
-                for es in (es_opts if ctx.thorough else [None] + rng.sample(es_opts[1:], 3)):
+            for fe in ([None] + rng.sample(fe_list[1:], min(len(fe_list) - 1, 4 if ctx.thorough else 2))):
+                for es in ([None] + rng.sample(es_opts[1:], min(len(es_opts) - 1, 5 if ctx.thorough else 3))):
                     d = rng.choice(["min", "max"])
                     f0 = rng.choice(FITS)
                     gens = [[(rng.choice([-2.0, 0.0, 1.5, 3.0]), f0)]] + [[(rng.choice([-2.0, 0.0, 1.5, 3.0]), f)] for f in h]
